@@ -337,10 +337,11 @@ void env_step(void);
 void own_step(void);
 /* every atomic block access of the kernels is preceded by VERIF_YIELD_AT(k), k = static site number;
    -DSITE=k restricts the interference to that site (all its dynamic occurrences) */
+extern int started; extern int ycount;   /* dynamic index of the atomic block access (all sites), as counted by the native replay hook */
 #ifdef SITE
-#define VERIF_YIELD_AT(k) { if ((k) == SITE) env_step(); }
+#define VERIF_YIELD_AT(k) { if (started) ycount++; if ((k) == SITE) env_step(); }
 #else
-#define VERIF_YIELD_AT(k) env_step()
+#define VERIF_YIELD_AT(k) { if (started) ycount++; env_step(); }
 #endif
 #undef VERIF_CMPXCHG
 #define VERIF_CMPXCHG(T, dst, p, e, n) { T _o = *(p); (dst).f0 = _o; if (_o == (e)) { *(p) = (n); (dst).f1 = 1; own_step(); } else (dst).f1 = 0; }
@@ -348,7 +349,6 @@ void own_step(void);
 ''' + SPEC + CONC_COMMON + r'''
 void env_step(void){
   if (!started) return;
-  ycount++;
   if (budget>0 && nondet_u8()){
     int e = ENV - budget; budget--; started = 0;
     uint64_t u=nondet_u64(), v=nondet_u64(); __CPROVER_assume(u<NN && v<NN);
@@ -385,10 +385,11 @@ void env_step(void);
 void own_step(void);
 /* every atomic block access of the kernels is preceded by VERIF_YIELD_AT(k), k = static site number;
    -DSITE=k restricts the interference to that site (all its dynamic occurrences) */
+extern int started; extern int ycount;   /* dynamic index of the atomic block access (all sites), as counted by the native replay hook */
 #ifdef SITE
-#define VERIF_YIELD_AT(k) { if ((k) == SITE) env_step(); }
+#define VERIF_YIELD_AT(k) { if (started) ycount++; if ((k) == SITE) env_step(); }
 #else
-#define VERIF_YIELD_AT(k) env_step()
+#define VERIF_YIELD_AT(k) { if (started) ycount++; env_step(); }
 #endif
 #undef VERIF_CMPXCHG
 #define VERIF_CMPXCHG(T, dst, p, e, n) { T _o = *(p); (dst).f0 = _o; if (_o == (e)) { *(p) = (n); (dst).f1 = 1; own_step(); } else (dst).f1 = 0; }
@@ -398,7 +399,6 @@ void own_step(void);
 int env_taken = 0;
 void env_step(void){
   if (!started) return;
-  ycount++;
   if (budget>0 && nondet_u8()){ budget--; env_taken++;
     uint64_t* n = cur_; uint8_t* t2 = t2_; for (int i=0;i<NN;i++){ n[i]=nondet_u64(); t2[i]=nondet_u8(); }
     __CPROVER_assume(inv(n,t2) && rbound(n) && rely(ghost_prev,n));
@@ -630,7 +630,7 @@ def _prepare(work):
                    "void unionNodes(parent_t x, parent_t y)", "compare_exchange_strong"):
         if anchor not in uf:
             raise EngineError("anchor not found in UnionFind.h: " + anchor)
-    m = re.search(r"if \(!updateRoot\(x,\s*xrank,\s*y,\s*(xrank|yrank)\)\)", uf)
+    m = re.search(r"updateRoot\(x,\s*xrank,\s*y,\s*(xrank|yrank)\)", uf)
     if not m:
         raise EngineError("link call updateRoot(x, xrank, y, <rank>) not found in unionNodes: the sequential reference model cannot be selected")
     K29["model_link_rank"] = 1 if m.group(1) == "yrank" else 0
